@@ -261,14 +261,9 @@ func runCase(c Case) *ev.Failure {
 	}
 	want := expected(c, short)
 
+	// a fresh mux, and nobody has asked for its ErrorReports channel yet: a report offered now must
+	// still be there when the channel is looked at after the dispatch
 	mux := diam.NewServeMux()
-	for drained := false; !drained; {
-		select {
-		case <-mux.ErrorReports():
-		default:
-			drained = true
-		}
-	}
 	m := diam.NewMessage(c.Code, c.Flags, c.App, 1, 2, p)
 	var calls []call
 	for i, r := range c.Regs {
